@@ -62,6 +62,28 @@ theorem c02_conc_close_wakes (s s' : CS) (t : Nat) (th : Th) (hth : s.ths[t]? = 
   rw [wakeAll_getD]
   simp [hul, hu]
 
+/-- **Every change of the version wakes everybody**, whichever call performs it (`set`, a `set_if_not_eq` that
+    stores, `update`, the close by the last owner's drop): a step after which the version differs leaves the waker list
+    empty, and every task that was registered has been woken. -/
+theorem c02_conc_version_change_wakes (s s' : CS) (t : Nat) (h : s.adv t = some s') (hv : s'.version ≠ s.version) :
+    s'.wakers = [] ∧ ∀ u ∈ s.wakers, u ≠ t → u < s.ths.length → (s'.thAt u).woken = true := by
+  unfold CS.adv at h
+  cases hth : s.ths[t]? with
+  | none => simp [hth] at h
+  | some th =>
+    have ht : t < s.ths.length := (thAt_eq s t th hth).2
+    have w1 := wakeAll_getD s.ths s.wakers
+    simp only [hth] at h
+    split at h <;> (try (split at h)) <;> (try (split at h)) <;> simp only [Option.some.injEq, reduceCtorEq] at h <;> (try subst h)
+    all_goals (first
+      | (exfalso; revert hv; simp; done)
+      | (exfalso; revert hv; cases s.atomicDrop <;> simp; done)
+      | (refine ⟨rfl, ?_⟩
+         intro u hu hut hul
+         have hne : ¬ t = u := fun e => hut e.symm
+         simp only [CS.thAt, List.getElem?_set, hne, if_false]
+         rw [w1]; simp [hul, hu]))
+
 -- non-vacuity: a subscriber parks, a writer blocked meanwhile then notifies and wakes it
 example :
     let s := (CS.init true 1 1 1 [(.poll, false), (.set 5, false)]).run [0, 0, 1, 0, 0, 1, 1]
